@@ -399,6 +399,62 @@ func enumStrings(t *testing.T, plan harness.Plan, name string, alpha []string, m
 	harness.SetExhaustive(name, fmt.Sprintf("every string of 0..%d symbols over %q (split over %d shard(s))", maxLen, alpha, shards))
 }
 
+// counted enumerates lines whose decision depends on a count that the short
+// exhaustive alphabets cannot reach: ordered list markers of 1-12 digits with
+// every number of leading zeros, ATX openers of 1-9 hashes, fences and thematic
+// breaks of 1-12 characters, each with the followers the rules distinguish.
+func counted(t *testing.T, plan harness.Plan) {
+	const name = "counted_lines"
+	n := 0
+	try := func(line string) bool {
+		n++
+		for _, e := range []string{"", "\n", "\r\n"} {
+			s := line + e
+			nt := false
+			for _, r := range rules {
+				acc, err := r.check(s)
+				nt = nt || acc
+				if err != nil {
+					h := fnv.New64a()
+					h.Write([]byte(s))
+					harness.CountRaw(name, h.Sum64(), nt, func() string { return fmt.Sprintf("%q", s) })
+					return harness.Fail(t, plan, name, harness.Case{In: []byte(s)}, err)
+				}
+			}
+			h := fnv.New64a()
+			h.Write([]byte(s))
+			harness.CountRaw(name, h.Sum64(), nt, func() string { return fmt.Sprintf("%q", s) })
+		}
+		return false
+	}
+	followers := []string{"", " ", " x", "\tx", "x", "  x", "     x", "\f"}
+	for nd := 1; nd <= 12; nd++ {
+		for zeros := 0; zeros <= nd; zeros++ {
+			for _, tail := range []string{"1", "9", "8"} {
+				digits := strings.Repeat("0", zeros) + strings.Repeat(tail, nd-zeros)
+				for _, d := range []string{".", ")", ":", ""} {
+					for _, f := range followers {
+						if try(digits + d + f) {
+							return
+						}
+					}
+				}
+			}
+		}
+	}
+	for k := 1; k <= 12; k++ {
+		for _, f := range followers {
+			for _, u := range []string{"#", "`", "~", "-", "_", "*", "=", "- ", "* "} {
+				run := strings.Repeat(u, k)
+				if try(run+f) || try(run+f+run) || try(run+" a "+run+f) {
+					return
+				}
+			}
+		}
+	}
+	harness.SetExhaustive(name, fmt.Sprintf("%d lines x 3 line endings: 1-12 digits with every number of leading zeros x delimiter x follower; runs of 1-12 of each marker character x follower, alone, doubled and around text", n))
+}
+
 func genEmail(t *rapid.T) harness.Case {
 	label := func(tag string) string {
 		n := []int{1, 2, 3, 30, 61, 62, 63, 64, 65}[rapid.IntRange(0, 8).Draw(t, tag+"len")]
@@ -445,6 +501,7 @@ func TestProperty(t *testing.T) {
 	plan.Checks = append(plan.Checks,
 		harness.Check{Name: "random_lines", Quick: 60000, Thorough: 600000, Gen: genLine, Prop: propAllRules,
 			Rule: "random lines up to 30 tokens (9/10-digit numbers, CR/CRLF endings, escapes) against all five rules; non-trivial = accepted by some rule"},
+		harness.Check{Name: "counted_lines", Prop: propAllRules, Rule: "enumerated lines whose decision depends on a count beyond the reach of the short alphabets (digits with leading zeros, hash / fence / break runs of 1-12), against all five rules"},
 		harness.Check{Name: "classifiers", Prop: propClassifiers, Rule: "all byte values and all code points; non-trivial = every byte, and the code points in either Unicode class"},
 		harness.Check{Name: "uri_enum", Prop: func(c harness.Case) harness.Result { return harness.Result{Err: checkURI(string(c.In))} },
 			Rule: "NormalizeURI on every short string over {a % 4 G g SP é / [ 0x80}: output alphabet, idempotence, equality with the reference normaliser; non-trivial = the string contains % or a byte that must be encoded"},
@@ -480,6 +537,9 @@ func TestProperty(t *testing.T) {
 		enumStrings(t, plan, "uri_enum", []string{"a", "%", "4", "G", "g", " ", "é", "/", "[", "\x80"}, ul, func(s string) (bool, error) {
 			return strings.ContainsAny(s, "% é[\x80"), checkURI(s)
 		})
+		if harness.Cfg().Shard == 0 && !t.Failed() {
+			counted(t, plan)
+		}
 		enumStrings(t, plan, "email_enum", []string{"a", "1", ".", "-", "@", "!", " "}, el, checkEmail)
 	}
 	harness.Run(t, plan)
